@@ -176,7 +176,14 @@ def _valchk(run: Run, prog: Program, model: Model, st: SchemaType, ta: TypeAutom
                 ops = comparison_operands(tv) if cv is None else None
                 if cv is not None:
                     hit = [o for o in rejects if o.pred_terms and canonical(o.pred_terms[-1][0], o.pred_terms[-1][1]) == cv]
-                    if hit:
+                    unchecked = [o for o in outs if o.kind == "ACCEPT" and not any(canonical(t, not b) == cv for t, b in o.pred_terms)]
+                    if hit and unchecked:
+                        cond = [("" if b else "not ") + k for k, b in unchecked[0].preds][:3]
+                        run.violated("VALCHK", construct, site,
+                                     f"an accepting path of {sh.label} never evaluates {cv} (path condition: {', '.join(cond)[:150] or 'none'})",
+                                     witness=f"schema.{st.facade_name}(v).{sh.label} is accepted on that path although the validator rejects v "
+                                             "(e.g. a falsy payload such as '')")
+                    elif hit:
                         run.holds("VALCHK", construct, site, f"declaration rejects on the validator's own predicate {cv}", nontrivial=True)
                     elif both:
                         run.undecided("VALCHK", construct, site,
@@ -196,7 +203,30 @@ def _valchk(run: Run, prog: Program, model: Model, st: SchemaType, ta: TypeAutom
                         rr = relation(t, b, x, y)
                         if rr is not None:
                             rd |= rr
-                    if rv is not None and rd and rv <= rd:
+                    leaky = None
+                    if rv is not None:
+                        for o in outs:
+                            if o.kind != "ACCEPT":
+                                continue
+                            if payload == "elements" and any(k.startswith("eq(len(listcomp(") and "len(props.elements)" in k and b_ is False
+                                                             for k, b_ in o.preds):
+                                continue        # element list with `...`: not a fully fixed payload
+                            ro = {"LT", "EQ", "GT"}
+                            for t, b in o.pred_terms:
+                                rr = relation(t, b, x, y)
+                                if rr is not None:
+                                    ro &= set(rr) | {r_ for r_ in rr if r_.endswith("_PART")}
+                                    ro = {r_ for r_ in ro if not r_.endswith("_PART")} if False else ro
+                            if ro & set(rv):
+                                cond = [("" if b else "not ") + k for k, b in o.preds if not k.startswith(("lt(", "eq("))]
+                                leaky = (sorted(ro & set(rv)), cond)
+                    if rv is not None and rd and rv <= rd and leaky is not None:
+                        run.violated("VALCHK", construct, site,
+                                     f"an accepting path of {sh.label} does not establish the check: ({x} ? {y}) may be {leaky[0]} "
+                                     f"when {', '.join(leaky[1])[:120] or 'no condition on the payload holds'}",
+                                     witness=f"schema.{st.facade_name}(v).{sh.label} is accepted for a payload on that path although the "
+                                             "validator rejects it (e.g. a falsy payload such as '' or 0)")
+                    elif rv is not None and rd and rv <= rd:
                         run.holds("VALCHK", construct, site,
                                   f"validator fails on {sorted(rv)} of ({x} ? {y}); declaration rejects {sorted(rd)}",
                                   nontrivial=True)
@@ -279,4 +309,11 @@ MUTANTS = [
     {"name": "neutral: type check helper extracted", "expect": "SILENT",
      "edits": [(I, "    def min(self, /, value: int) -> \"IntSchema\":\n        if not isinstance(value, int):\n            raise make_invalid_type_error(self, value, (int,))\n",
                 "    def _check_int(self, value: int) -> None:\n        if not isinstance(value, int):\n            raise make_invalid_type_error(self, value, (int,))\n\n    def min(self, /, value: int) -> \"IntSchema\":\n        self._check_int(value)\n")]},
+]
+
+MUTANTS += [
+    {"name": "truthiness test on the fixed str value (empty string skips the length checks)", "rule": "VALCHK",
+     "edits": [(S, "        if (props.value is not Nil) and (len(props.value) != length):", "        if props.value and (len(props.value) != length):")]},
+    {"name": "truthiness test on the fixed value before the alphabet check", "rule": "VALCHK",
+     "edits": [(S, "        if self.props.value is not Nil:\n            missing_letters", "        if self.props.value:\n            missing_letters")]},
 ]
